@@ -399,6 +399,11 @@ func cmdCheck(args []string) int {
 	for _, a := range sortedKeys(havocs) {
 		trusted = append(trusted, "callee without contract treated as arbitrary effect ("+strings.TrimPrefix(a, "havoc:")+")")
 	}
+	if os.Getenv("GOVC_HAVOC") != "" {
+		for _, a := range sortedKeys(havocs) {
+			fmt.Println("HAVOC", a)
+		}
+	}
 	wall := time.Since(start).Seconds()
 	if total == 0 {
 		fmt.Printf("VIOLATION property=%s replay=%s obligation=none (zero obligations generated) no-failing-input-found\n", *prop, filepath.Join(replays, *prop, "zero.json"))
